@@ -557,5 +557,13 @@ func init() {
 			_, fs := c10Replay(decode[c10Case](raw), 0)
 			return fs
 		},
+		GoTest: func(raw json.RawMessage) string {
+			cs := decode[c10Case](raw)
+			var ops [][3]interface{}
+			for _, o := range cs.Ops {
+				ops = append(ops, [3]interface{}{o.K, o.H, o.A})
+			}
+			return poolGoTest(cs.T, cs.C, cs.L, cs.K, ops)
+		},
 	})
 }
